@@ -35,3 +35,23 @@ pub proof fn lemma_run_split<V: View>(s: V::S, h1: Seq<T>, h2: Seq<T>)
         assert((h1 + h2).last() == h2.last());
     }
 }
+// (4) a clone taken at any moment (M4: the field-wise clone that #[derive(Clone)] generates, proved per view to preserve the abstract
+// state) continues exactly like the original on the same inputs, and feeding the original alone leaves the clone where it was:
+// the two are separate owned values, `update` takes `&mut` to one of them only.
+pub fn clone_then_both<V: View>(v: &mut V, xs: &Vec<T>) -> (c: V)
+    requires old(v).inv(), run_ok::<V>(old(v).abs(), xs@),
+    ensures final(v).inv(), c.inv(), c.abs() == final(v).abs(), final(v).abs() == run::<V>(old(v).abs(), xs@),
+{
+    let mut c = v.clone_view();
+    drive(v, xs);
+    drive(&mut c, xs);
+    c
+}
+pub fn clone_then_original_only<V: View>(v: &mut V, xs: &Vec<T>) -> (c: V)
+    requires old(v).inv(), run_ok::<V>(old(v).abs(), xs@),
+    ensures final(v).inv(), c.inv(), c.abs() == old(v).abs(), final(v).abs() == run::<V>(old(v).abs(), xs@),
+{
+    let c = v.clone_view();
+    drive(v, xs);
+    c
+}
